@@ -1335,6 +1335,111 @@ def main_loop(fn):
     return tops[0] if tops else None
 
 
+def skeleton_call(facts, fn):
+    """A pass written as `return skeleton(<args>)` (or `x = skeleton(<args>); return x`) where `skeleton` is a module-level
+    function that contains the item loop: (call node, skeleton FunctionDef), else None."""
+    rets = [n for n in fn.body if isinstance(n, ast.Return) and n.value is not None]
+    if len(rets) != 1 or any(isinstance(n, (ast.For, ast.While)) for n in fn.body):
+        return None
+    v = rets[0].value
+    if isinstance(v, ast.Name):
+        defs = [n for n in fn.body if isinstance(n, ast.Assign) and len(n.targets) == 1 and isinstance(n.targets[0], ast.Name) and n.targets[0].id == v.id]
+        if len(defs) != 1:
+            return None
+        v = defs[0].value
+    if isinstance(v, ast.Call) and isinstance(v.func, ast.Name) and v.func.id in facts.funcs:
+        sk = facts.funcs[v.func.id]
+        if sk is not fn and main_loop(sk) is not None and not any(isinstance(a, ast.Starred) for a in v.args):
+            return v, sk
+    return None
+
+
+def skeleton_paths(facts, fn, sk, w, pre, seed):
+    """loop_paths for a pass that delegates its loop to a higher-order skeleton: the skeleton's loop is walked with its
+    parameters bound to the pass's arguments (local converter closures included)."""
+    call, skfn = sk
+    live = [pre]
+    done = []
+    for node in fn.body:
+        if isinstance(node, ast.Return) or (isinstance(node, ast.Assign) and node.value is call):
+            break
+        nxt = []
+        for s in live:
+            nxt.extend(w.stmt(node, s, done))
+        live = nxt
+    out_live, results, target = [], [], None
+    for s in live:
+        env = dict(s.env)
+        args = tuple(w.sym(a, s) for a in call.args)
+        kwargs = tuple((k.arg, w.sym(k.value, s)) for k in call.keywords)
+        if not w.bind_args(skfn, args, kwargs, env):
+            raise AnalysisError('cannot bind the arguments of {} in {}'.format(skfn.name, fn.name))
+        s2 = s.clone()
+        s2.env = env
+        # a parameter of the skeleton that receives the pass's own item list keeps the parameter identity
+        for a in skfn.args.args:
+            v = env.get(a.arg)
+            if isinstance(v, tuple) and v and v[0] == 'name' and v[1] in {x.arg for x in fn.args.args}:
+                env[a.arg] = ('name', a.arg)
+        pre2, target, res = _loop_paths_in(facts, skfn, w, s2, seed)
+        out_live.extend(pre2)
+        results.extend(res)
+    for r in results:
+        r.walker = w
+        r.loop_fn = skfn
+    return out_live, target, results
+
+
+def _loop_paths_in(facts, fn, w, pre, seed):
+    loop = main_loop(fn)
+    live = [pre]
+    done = []
+    target = None
+    for node in fn.body:
+        if node is loop:
+            target = node
+            break
+        nxt = []
+        for s in live:
+            nxt.extend(w.stmt(node, s, done))
+        live = nxt
+    if target is None:
+        raise AnalysisError('anchor vanished: main loop of {}'.format(fn.name))
+    return live, target, _walk_loop(w, fn, target, live, seed)
+
+
+def _walk_loop(w, fn, target, live, seed):
+    results = []
+    mutated = set()
+    for n in ast.walk(target):
+        if isinstance(n, ast.Name) and isinstance(n.ctx, ast.Store):
+            mutated.add(n.id)
+        if (isinstance(n, ast.Call) and isinstance(n.func, ast.Attribute) and isinstance(n.func.value, ast.Name)
+                and n.func.attr in MUTATORS):
+            mutated.add(n.func.value.id)
+        if isinstance(n, ast.Subscript) and isinstance(n.ctx, ast.Store) and isinstance(n.value, ast.Name):
+            mutated.add(n.value.id)
+    mutated |= closure_effects(fn, target)
+    params = {a.arg for a in fn.args.args + fn.args.kwonlyargs}
+    for s in live:
+        s = s.clone()
+        s.events = []
+        s.conds = []
+        for n in mutated:
+            if n in s.env and n not in params and s.env[n][0] not in ('closure',):
+                s.env[n] = ('lv', n)
+        for k, v in (seed or {}).items():
+            s.fact(k)['eq'] = v
+        if isinstance(target.target, ast.Name):
+            s.env[target.target.id] = ('item', target.target.id)
+        else:
+            for i, e in enumerate(target.target.elts):
+                if isinstance(e, ast.Name):
+                    s.env[e.id] = ('item', e.id)
+        results.extend(w.run(target.body, s))
+    return results
+
+
 def local_closures(fn):
     return {st.name: st for st in ast.walk(fn) if isinstance(st, ast.FunctionDef) and st is not fn}
 
@@ -1382,6 +1487,10 @@ def loop_paths(facts, fn, loop=None, loop_var_name=None, seed=None):
     live = [pre]
     if loop is None:
         loop = main_loop(fn)
+    if loop is None:
+        sk = skeleton_call(facts, fn)
+        if sk is not None:
+            return skeleton_paths(facts, fn, sk, w, pre, seed)
     for node in fn.body:
         if isinstance(node, ast.For) and (loop is None or node is loop):
             target = node
@@ -1395,34 +1504,7 @@ def loop_paths(facts, fn, loop=None, loop_var_name=None, seed=None):
     if len(live) != 1:
         # several prelude paths (rare): take them all
         pass
-    results = []
-    mutated = set()
-    for n in ast.walk(target):
-        if isinstance(n, ast.Name) and isinstance(n.ctx, ast.Store):
-            mutated.add(n.id)
-        if (isinstance(n, ast.Call) and isinstance(n.func, ast.Attribute) and isinstance(n.func.value, ast.Name)
-                and n.func.attr in MUTATORS):
-            mutated.add(n.func.value.id)
-        if isinstance(n, ast.Subscript) and isinstance(n.ctx, ast.Store) and isinstance(n.value, ast.Name):
-            mutated.add(n.value.id)
-    mutated |= closure_effects(fn, target)
-    params = {a.arg for a in fn.args.args + fn.args.kwonlyargs}
-    for s in live:
-        s = s.clone()
-        s.events = []
-        s.conds = []
-        for n in mutated:
-            if n in s.env and n not in params and s.env[n][0] not in ('closure',):
-                s.env[n] = ('lv', n)
-        for k, v in (seed or {}).items():
-            s.fact(k)['eq'] = v
-        if isinstance(target.target, ast.Name):
-            s.env[target.target.id] = ('item', target.target.id)
-        else:
-            for i, e in enumerate(target.target.elts):
-                if isinstance(e, ast.Name):
-                    s.env[e.id] = ('item', e.id)
-        results.extend(w.run(target.body, s))
+    results = _walk_loop(w, fn, target, live, seed)
     for r in results:
         r.walker = w
     return live, target, results
